@@ -325,6 +325,25 @@ pub fn base_spec(shape: usize, packaging: Packaging, comp: Comp, seed: u32) -> C
         spec.extra_packs.clear();
         return spec;
     }
+    if shape == 5 {
+        // "big directory": 3000 entries, entry data and a plain value store of tens of KiB (every
+        // part of the directory pack above the 4 KiB below which the reader copies into memory)
+        let mut spec = base_spec(1, packaging, comp, seed);
+        spec.extra_packs.clear();
+        spec.dir = DirSpec {
+            vstores: vec![StoreKind::Plain],
+            estores: vec![EStoreSpec {
+                common: vec![PropSpec { kind: PKind::UInt, constant: false }, PropSpec { kind: PKind::Array { fixed: 2, store: 0 }, constant: false }],
+                variants: vec![],
+                sort: vec![],
+                entries: (0..3000u64).map(|i| RawEntry { variant: 0, vals: vec![rv(i * 7 + 1, 0, 0), rv(0, 10, i as u32)] }).collect(),
+                windows: vec![Win::Whole],
+            }],
+            linked: false,
+            index_meta: false,
+        };
+        return spec;
+    }
     if shape == 4 {
         // content-info table above 64 KiB
         let mut spec = base_spec(1, packaging, comp, seed);
@@ -1053,6 +1072,7 @@ pub fn check_cmd(id: &str, tier: Tier) -> i32 {
     big_specs.push(("T-OneFile-none".into(), base_spec(2, Packaging::OneFile, Comp::None, s32)));
     big_specs.push(("T-TwoFiles-zstd".into(), base_spec(2, Packaging::TwoFiles, Comp::Zstd(3), s32)));
     big_specs.push(("T3-OneFile-none-20000".into(), base_spec(4, Packaging::OneFile, Comp::None, s32)));
+    big_specs.push(("D-OneFile-none-bigdir".into(), base_spec(5, Packaging::OneFile, Comp::None, s32)));
     big_specs.push(("L-OneFile-zstd".into(), base_spec(3, Packaging::OneFile, Comp::Zstd(3), s32)));
     big_specs.push(("L-OneFile-lzma".into(), base_spec(3, Packaging::OneFile, Comp::Lzma(1), s32)));
     big_specs.push(("L-TwoFiles-lz4".into(), base_spec(3, Packaging::TwoFiles, Comp::Lz4(1), s32)));
